@@ -164,6 +164,8 @@ def prepare_once(selfcheck=False):
         # keep the eight most recent builds (several trees may be under test at once: selftest mutants)
         ents = sorted(glob.glob(os.path.join(BUILD, "cache", "*")), key=os.path.getmtime, reverse=True)
         for e in ents[8:]:
+            if time.time() - os.path.getmtime(e) < 3600:
+                continue  # possibly in use by a batch that is still running
             shutil.rmtree(e, ignore_errors=True)
         log("prepare: built %s in %.1fs" % (key, time.time() - t0))
         return dst
@@ -181,7 +183,12 @@ def worker_cmd(bdir):
 def worker_env(bdir, args, outdir):
     e = dict(ENV)
     e["VERIFSIM_ARGS"] = json.dumps(args)
-    e["GORACE"] = "log_path=%s halt_on_error=0 atexit_sleep_ms=0" % args["racelog"]
+    # history_size: with the default (1) the detector forgets the earlier access of a pair in runs of millions
+    # of statements and then drops the report: the same race was reported in a warm worker and not in a fresh
+    # process (seeded change C18-10C)
+    e["GORACE"] = "log_path=%s halt_on_error=0 atexit_sleep_ms=0 history_size=5" % args["racelog"]
+    if os.environ.get("VERIF_GORACE_EXTRA"):
+        e["GORACE"] += " " + os.environ["VERIF_GORACE_EXTRA"]
     e["VERIF_UPDOG_BIN"] = os.path.join(bdir, "updog")
     e["VERIF_UPDOG_SIM_BIN"] = os.path.join(bdir, "updog-sim")
     e["VERIF_SITES"] = os.path.join(bdir, "sites.json")
